@@ -174,7 +174,7 @@ func schemaShape(s *Schema) string {
 
 func (m *monitor) phaseSearch() {
 	r := m.r
-	nCorpora := r.Scale(1200, 7000)
+	nCorpora := r.Scale(3000, 9000)
 	nQueries := r.Scale(22, 40)
 	parallel(nCorpora, 16, func(i int) {
 		g := r.Rng(fmt.Sprintf("search-%d", i))
